@@ -233,15 +233,12 @@ theorem eq_of_nodup_map {α β : Type} (f : α → β) : ∀ {l : List α}, (l.m
     · exact absurd hf (hn.1 a ha)
     · exact eq_of_nodup_map f hn.2 ha hb hf
 
-/-- from `keysOK` on the keys: `<` on the first components answers and is a strict total order on the pairs -/
+/-- from `keysOK` on the keys: the order of the items (by key representation) is a strict total order on the pairs -/
 theorem pairs_total {β : Type} {l : List (Scalar × β)} (h : keysOK (l.map (·.1)) = true) :
-    AgreeOn (fun a b : Scalar × β => scalarLt a.1 b.1) (fun a b => ltbS a.1 b.1) l
-    ∧ TotalOn (fun a b : Scalar × β => ltbS a.1 b.1) l := by
-  obtain ⟨ha, ht, hn⟩ := keysOK_spec h
+    TotalOn (fun a b : Scalar × β => ltbK a.1 b.1) l := by
+  obtain ⟨ht, hn⟩ := keysOK_spec h
   have hm : ∀ a ∈ l, a.1 ∈ l.map (·.1) := fun a ha => List.mem_map.mpr ⟨a, ha, rfl⟩
-  refine ⟨?_, ⟨?_, ?_, ?_⟩⟩
-  · intro a ha' b hb'
-    exact ha a.1 (hm a ha') b.1 (hm b hb')
+  refine ⟨?_, ?_, ?_⟩
   · intro a ha' b hb' hab
     exact ht.asym a.1 (hm a ha') b.1 (hm b hb') hab
   · intro a ha' b hb' c hc' hab hbc
@@ -252,11 +249,10 @@ theorem pairs_total {β : Type} {l : List (Scalar × β)} (h : keysOK (l.map (·
 
 theorem keysOK_perm {ks ks' : List Scalar} (hp : ks.Perm ks') (h : keysOK ks = true) : keysOK ks' = true := by
   unfold keysOK at *
-  simp only [Bool.and_eq_true, List.all_eq_true, decide_eq_true_eq] at h ⊢
-  obtain ⟨⟨⟨⟨h1, h2⟩, h3⟩, h4⟩, h5⟩ := h
-  have hs : ∀ x, x ∈ ks' → x ∈ ks := fun x hx => hp.symm.subset hx
-  exact ⟨⟨⟨⟨fun a ha b hb => h1 a (hs a ha) b (hs b hb), fun a ha b hb => h2 a (hs a ha) b (hs b hb)⟩,
-    fun a ha b hb c hc => h3 a (hs a ha) b (hs b hb) c (hs c hc)⟩, fun a ha b hb => h4 a (hs a ha) b (hs b hb)⟩,
-    hp.nodup_iff.mp h5⟩
+  simp only [Bool.and_eq_true, decide_eq_true_eq, List.all_eq_true] at h ⊢
+  exact ⟨hp.nodup_iff.mp h.1, fun k hk => h.2 k (hp.symm.subset hk)⟩
+
+theorem sortItems_eq {β : Type} (l : List (Scalar × β)) :
+    sortItems l = pySortedB (fun a b : Scalar × β => ltbK a.1 b.1) l := rfl
 
 end PydraModel.Hash
